@@ -34,6 +34,11 @@ type Puppet struct {
 	recv [][]byte
 	// OnMsg is called (outside locks) for every user message received.
 	OnMsg func(p *Puppet, buf []byte)
+	// State, if set, produces the push/pull payload this puppet hands to peers
+	// (memberlist calls LocalState during push/pull; join=true for a join).
+	State func(join bool) []byte
+	// OnMerge, if set, observes remote push/pull payloads.
+	OnMerge func(buf []byte, join bool)
 	// Queue holds broadcasts to hand to memberlist gossip.
 	queue [][]byte
 	// ProtoMax overrides the delegate protocol max (default 5).
@@ -59,8 +64,30 @@ func (d *puppetDelegate) GetBroadcasts(overhead, limit int) [][]byte {
 	d.p.queue = nil
 	return q
 }
-func (d *puppetDelegate) LocalState(join bool) []byte            { return nil }
-func (d *puppetDelegate) MergeRemoteState(buf []byte, join bool) {}
+func (d *puppetDelegate) LocalState(join bool) []byte {
+	d.p.mu.Lock()
+	f := d.p.State
+	d.p.mu.Unlock()
+	if f != nil {
+		return f(join)
+	}
+	return nil
+}
+func (d *puppetDelegate) MergeRemoteState(buf []byte, join bool) {
+	d.p.mu.Lock()
+	f := d.p.OnMerge
+	d.p.mu.Unlock()
+	if f != nil {
+		f(append([]byte(nil), buf...), join)
+	}
+}
+
+// SetState installs the push/pull payload producer.
+func (p *Puppet) SetState(f func(join bool) []byte) {
+	p.mu.Lock()
+	p.State = f
+	p.mu.Unlock()
+}
 
 // PuppetOpts configures a puppet.
 type PuppetOpts struct {
